@@ -120,6 +120,7 @@ fn run_subject(kind: &str, c: usize, r: usize, mode: &str, ctx: &mut Ctx) {
                     }
                 }
                 cs.traces = 1;
+                cs.outcome(if term == Term::None { "calls-only" } else { "closed-by-terminal" });
                 if c > 0 {
                     cs.nontrivial((kind, c, r, mode, &seq, term));
                 }
